@@ -37,6 +37,9 @@ type SingleFlightItem struct {
 	statusCode int
 	// err is non nil if the leader produced an error while doing the work
 	err error
+	// leaderGone is set when the leader failed after its own context had ended (cancelled or
+	// deadline exceeded): the failure then says nothing about the subgraph
+	leaderGone bool
 	// sizeHint keeps track of the last 50 responses per fetchKey to give an estimate on the size
 	// this gives a leader a hint on how much space it should pre-allocate for buffers when fetching
 	// this reduces memory usage
